@@ -187,9 +187,9 @@ type session struct {
 	socket                         socket.Socket
 	closeNotifyCh                  chan struct{} // closeNotifyCh is the channel returned by CloseNotify.
 	writeLock                      sync.Mutex
-	graceCtxWaitGroup              sync.WaitGroup
+	graceCtxWaitGroup              graceWaitGroup
 	graceCtxMutex                  sync.Mutex
-	graceCallCmdWaitGroup          sync.WaitGroup
+	graceCallCmdWaitGroup          graceWaitGroup
 	sessionAge                     time.Duration
 	contextAge                     time.Duration
 	sessionAgeLock                 sync.RWMutex
@@ -199,6 +199,45 @@ type session struct {
 	seq                            int32
 	status                         int32
 	didCloseNotify                 int32
+}
+
+// graceWaitGroup counts running handlers / pending calls for the graceful close.
+// Unlike sync.WaitGroup it may be incremented while another goroutine waits
+// (frames keep arriving and calls keep being issued while a close or a
+// disconnect waits), which sync.WaitGroup answers with a panic.
+type graceWaitGroup struct {
+	mu sync.Mutex
+	n  int
+	ch chan struct{} // closed when n drops to zero while somebody waits
+}
+
+func (g *graceWaitGroup) Add(delta int) {
+	g.mu.Lock()
+	g.n += delta
+	if g.n <= 0 && g.ch != nil {
+		close(g.ch)
+		g.ch = nil
+	}
+	g.mu.Unlock()
+}
+
+func (g *graceWaitGroup) Done() {
+	g.Add(-1)
+}
+
+// Wait blocks until the counter is zero.
+func (g *graceWaitGroup) Wait() {
+	g.mu.Lock()
+	if g.n <= 0 {
+		g.mu.Unlock()
+		return
+	}
+	if g.ch == nil {
+		g.ch = make(chan struct{})
+	}
+	ch := g.ch
+	g.mu.Unlock()
+	<-ch
 }
 
 func newSession(peer *peer, conn net.Conn, protoFuncs []ProtoFunc) *session {
